@@ -95,6 +95,8 @@ type rec struct {
 	toks   []string
 	idx    map[dkeyT]int
 	quiet  atomic.Bool // prologue of Copy (MapRoot / platform selection): not part of the copy trace
+	pro    []int       // nodes read from the source in Copy's prologue (resolveRoot's FetchReference, MapRoot /
+	// platform selection): outside the transition system, but inside "one copy call" for C04's counters
 	srcIn  int
 	dstIn  int
 	srcMax int
@@ -182,6 +184,9 @@ func (c *closeRec) Close() error {
 
 func (s *srcW) Fetch(ctx context.Context, d ocispec.Descriptor) (io.ReadCloser, error) {
 	if s.r.quiet.Load() {
+		s.r.mu.Lock()
+		s.r.pro = append(s.r.pro, s.r.node(d))
+		s.r.mu.Unlock()
 		return s.under.Fetch(ctx, d)
 	}
 	n := s.r.node(d)
@@ -219,8 +224,17 @@ func (s srcWG) Predecessors(ctx context.Context, d ocispec.Descriptor) ([]ocispe
 type srcWRef struct{ *srcW }
 
 func (s srcWRef) FetchReference(ctx context.Context, ref string) (ocispec.Descriptor, io.ReadCloser, error) {
+	note := func(d ocispec.Descriptor) {
+		s.r.mu.Lock()
+		s.r.pro = append(s.r.pro, s.r.node(d)) // a source read of the root, in the prologue
+		s.r.mu.Unlock()
+	}
 	if rf, ok := s.under.(registry.ReferenceFetcher); ok {
-		return rf.FetchReference(ctx, ref)
+		d, rc, err := rf.FetchReference(ctx, ref)
+		if err == nil {
+			note(d)
+		}
+		return d, rc, err
 	}
 	d, err := s.under.Resolve(ctx, ref)
 	if err != nil {
@@ -230,6 +244,7 @@ func (s srcWRef) FetchReference(ctx context.Context, ref string) (ocispec.Descri
 	if err != nil {
 		return ocispec.Descriptor{}, nil, err
 	}
+	note(d)
 	return d, rc, nil
 }
 
@@ -436,6 +451,7 @@ type Result struct {
 	TagNode  int    // node the effective destination reference resolves to (-1 none, -2 unknown descriptor)
 	SrcMax   int
 	DstMax   int
+	Pro      []int // nodes read from the source in the prologue
 	Keff     int
 	Root2    int // the root after MapRoot / platform selection (ground truth), -1 if the prologue must fail
 	SetupErr error
@@ -472,6 +488,26 @@ func expectedRoot(c *Case, g *dag.Graph) int {
 	}
 	if c.Platform != "" {
 		n := g.Nodes[root]
+		if n.Kind == dag.KImage || n.Kind == dag.KDocker {
+			// SelectManifest on a manifest: the platform is read from the config blob, which must have the
+			// image-config media type of the manifest's family
+			cfg := g.Nodes[n.Succ[0]]
+			if n.Subject >= 0 {
+				cfg = g.Nodes[n.Succ[1]]
+			}
+			want := ocispec.MediaTypeImageConfig
+			if n.Kind == dag.KDocker {
+				want = dag.MTDockerConfig
+			}
+			var p ocispec.Platform
+			if cfg.Desc.MediaType != want || json.NewDecoder(bytes.NewReader(cfg.Bytes)).Decode(&p) != nil {
+				return -1
+			}
+			if p.Architecture == c.Platform && p.OS == "linux" && c.PlatVar == "" && c.PlatFeat == "" {
+				return root
+			}
+			return -1
+		}
 		if n.Kind != dag.KIndex && n.Kind != dag.KDockerL {
 			return -1
 		}
@@ -773,6 +809,7 @@ func Execute(c *Case) *Result {
 		r.ev("RT.0", 0, 0)
 	}
 	res.Toks = r.toks
+	res.Pro = r.pro
 	res.SrcMax, res.DstMax = r.srcMax, r.dstMax
 
 	// observe the destination (underlying store, not the wrapper)
